@@ -1,7 +1,231 @@
 import CddVerif.Driver.Basic
+import CddVerif.Model.Sql
 /-! Driver ops for C05 (line protocol; see Main.lean). Only Mathlib-free imports here. -/
 namespace Driver.C05
-open Lean Driver
+open Lean Driver Sql
 
-def ops : List (String × Handler) := []
+/-! ### JSON → model -/
+
+def valOf (j : Json) : Except String Val :=
+  match j with
+  | .null => pure .none
+  | .bool b => pure (.bool b)
+  | .str s => pure (.str s.toList)
+  | .num _ => do return .int (← j.getInt?)
+  | .obj _ =>
+    match j.getObjVal? "f" with
+    | .ok (.str s) => pure (.float s.toList)
+    | _ => match j.getObjVal? "code" with
+      | .ok (.str s) => pure (.code s.toList)
+      | _ => throw "bad value"
+  | _ => throw "bad value"
+
+partial def typOf (j : Json) : Except String Typ := do
+  match j.getObjVal? "n" with
+  | .ok (.str s) => return .name s.toList
+  | _ => pure ()
+  match j.getObjVal? "opt" with
+  | .ok t => return .optional (← typOf t)
+  | _ => pure ()
+  match j.getObjVal? "lit" with
+  | .ok (.arr a) => return .literal (← a.toList.mapM (fun m => do return (← m.getStr?).toList))
+  | _ => pure ()
+  match j.getObjVal? "list" with
+  | .ok t => return .list (← typOf t)
+  | _ => pure ()
+  match j.getObjVal? "union" with
+  | .ok (.arr a) =>
+    if a.size == 2 then return .union (← typOf a[0]!) (← typOf a[1]!) else throw "bad union"
+  | _ => throw "bad typ"
+
+def optKey (j : Json) (k : String) : Option Json :=
+  match j.getObjVal? k with
+  | .ok v => some v
+  | .error _ => none
+
+def optStrKey (j : Json) (k : String) : Option (List Char) :=
+  match j.getObjVal? k with
+  | .ok (.str s) => some s.toList
+  | _ => none
+
+/-- `{"typ": <typ>|null (absent = no key), "doc": str?, "default": {"v": <val>}?, "x_sql_type": str?,
+      "server_default": {"v": <val>}?, "items_type": str?}` -/
+def paramOf (j : Json) : Except String Param := do
+  let typ ← (match optKey j "typ" with
+    | none => pure none
+    | some .null => pure (some none)
+    | some t => do return some (some (← typOf t)) : Except String (Option (Option Typ)))
+  let wrapped (k : String) : Except String (Option Val) :=
+    match optKey j k with
+    | none => pure none
+    | some w => do return some (← valOf (← w.getObjVal? "v"))
+  return { typ := typ, doc := optStrKey j "doc", default := ← wrapped "default", xSqlType := optStrKey j "x_sql_type",
+           serverDefault := ← wrapped "server_default", itemsType := optStrKey j "items_type" }
+
+def paramsOf (j : Json) : Except String Params := do
+  let a ← j.getArr?
+  a.toList.mapM (fun kv => do
+    let p ← kv.getArr?
+    return ((← p[0]!.getStr?).toList, ← paramOf p[1]!))
+
+def argOf (j : Json) : Except String Arg := do
+  match optKey j "c" with
+  | some v => return .const (← valOf v)
+  | none => pure ()
+  match optStrKey j "n" with
+  | some s => return .name s
+  | none => pure ()
+  match optStrKey j "code" with
+  | some s => return .expr s
+  | none => pure ()
+  let f ← getStr j "f"
+  let a ← getArr j "a"
+  let k ← getArr j "k"
+  let strOfConst (x : Json) : Except String (List Char) := do
+    match ← valOf (← x.getObjVal? "c") with
+    | .str s => pure s
+    | _ => throw "unmodelled-arg"
+  if f == "Enum" then
+    let nm ← (match k.toList with
+      | [kv] => do
+        let p ← kv.getArr?
+        if (← p[0]!.getStr?) == "name" then strOfConst p[1]! else throw "unmodelled-arg"
+      | _ => throw "unmodelled-arg" : Except String (List Char))
+    return .enum (← a.toList.mapM strOfConst) nm
+  else if f == "ForeignKey" && a.size == 1 && k.size == 0 then
+    return .fk (← strOfConst a[0]!)
+  else if f == "ARRAY" && a.size == 1 && k.size == 0 then
+    match optStrKey a[0]! "n" with
+    | some s => return .array s
+    | none => throw "unmodelled-arg"
+  else throw "unmodelled-arg"
+
+def columnOf (j : Json) : Except String ColumnCall := do
+  let a ← getArr j "args"
+  let k ← getArr j "kws"
+  let kws ← k.toList.mapM (fun kv => do
+    let p ← kv.getArr?
+    return ((← p[0]!.getStr?).toList, ← valOf p[1]!))
+  return { args := ← a.toList.mapM argOf, kws := kws }
+
+/-! ### model → JSON -/
+
+def valJ : Val → Json
+  | .none => Json.null
+  | .bool b => Json.bool b
+  | .int i => int i
+  | .float r => Json.mkObj [("f", str r)]
+  | .str s => str s
+  | .code s => Json.mkObj [("code", str s)]
+
+def constJ (v : Val) : Json := Json.mkObj [("c", valJ v)]
+
+def argJ : Arg → Json
+  | .const v => constJ v
+  | .name id => Json.mkObj [("n", str id)]
+  | .enum ms nm => Json.mkObj [("f", "Enum"), ("a", Json.arr (ms.map (fun m => constJ (.str m))).toArray),
+                               ("k", Json.arr #[Json.arr #["name", constJ (.str nm)]])]
+  | .fk v => Json.mkObj [("f", "ForeignKey"), ("a", Json.arr #[constJ (.str v)]), ("k", Json.arr #[])]
+  | .array inner => Json.mkObj [("f", "ARRAY"), ("a", Json.arr #[Json.mkObj [("n", str inner)]]), ("k", Json.arr #[])]
+  | .expr code => Json.mkObj [("code", str code)]
+
+def columnJ (c : ColumnCall) : Json :=
+  Json.mkObj [("args", Json.arr (c.args.map argJ).toArray),
+              ("kws", Json.arr (c.kws.map (fun kv => Json.arr #[str kv.1, valJ kv.2])).toArray)]
+
+def optValJ : Option Val → Json
+  | none => Json.mkObj []
+  | some v => Json.mkObj [("v", valJ v)]
+
+def parsedJ (p : Parsed) : Json :=
+  Json.mkObj [("typ", optStr p.typ), ("x_sql_type", optStr p.xSqlType), ("doc", optStr p.doc),
+              ("default", optValJ p.default), ("server_default", optValJ p.serverDefault), ("none_key", optValJ p.noneKey),
+              ("comment", optValJ p.comment)]
+
+def tableJ (t : TableCall) : Json :=
+  Json.mkObj [("tname", str t.tname), ("meta", str t.metaName), ("cols", Json.arr (t.cols.map columnJ).toArray)]
+
+def stmtJ : Stmt → Json
+  | .docstring => Json.arr #["doc"]
+  | .assignStr t v => Json.arr #["str", str t, str v]
+  | .assignCol t c => Json.arr #["col", str t, columnJ c]
+  | .assignTable t tbl => Json.arr #["table", str t, tableJ tbl]
+  | .funcDef n => Json.arr #["def", str n]
+
+def classJ (c : ClassDef) : Json :=
+  Json.mkObj [("name", str c.name), ("body", Json.arr (c.body.map stmtJ).toArray)]
+
+def parsedIRJ (r : ParsedIR) : Json :=
+  Json.mkObj [("name", str r.name),
+              ("params", Json.arr (r.params.map (fun kv => Json.arr #[str kv.1, parsedJ kv.2])).toArray)]
+
+def exceptJ {α} (f : α → Json) : Except String α → Json
+  | .ok a => Json.mkObj [("ok", f a)]
+  | .error e => Json.mkObj [("error", Json.str e)]
+
+def stmtOf (j : Json) : Except String Stmt := do
+  let a ← j.getArr?
+  let kind ← a[0]!.getStr?
+  if kind == "doc" then return .docstring
+  else if kind == "def" then return .funcDef (← a[1]!.getStr?).toList
+  else if kind == "str" then return .assignStr (← a[1]!.getStr?).toList (← a[2]!.getStr?).toList
+  else if kind == "col" then return .assignCol (← a[1]!.getStr?).toList (← columnOf a[2]!)
+  else if kind == "table" then
+    let t := a[2]!
+    let cols ← (← getArr t "cols").toList.mapM columnOf
+    return .assignTable (← a[1]!.getStr?).toList { tname := ← getChars t "tname", metaName := ← getChars t "meta", cols := cols }
+  else throw "bad stmt"
+
+def pairsJ (t : List (List Char × List Char)) : Json := Json.arr (t.map (fun kv => Json.arr #[str kv.1, str kv.2])).toArray
+
+def ops : List (String × Handler) := [
+  -- one parameter → one `Column(…)` call
+  ("c05.column", fun j => do
+    let name ← getChars j "name"
+    let p ← paramOf (← j.getObjVal? "param")
+    let incl ← getBool j "include_name"
+    return exceptJ columnJ (paramToColumn incl (name, p))),
+  -- one `Column(…)` call → (name, ParamVal)
+  ("c05.parse_column", fun j => do
+    let c ← columnOf (← j.getObjVal? "column")
+    return exceptJ (fun np => Json.arr #[str np.1, parsedJ np.2]) (columnToParam c)),
+  -- ensure_has_primary_key: names and descriptions afterwards
+  ("c05.ensure_pk", fun j => do
+    let ps ← paramsOf (← j.getObjVal? "params")
+    let force ← getBool j "force"
+    let r := ensurePK force ps
+    return Json.mkObj [("params", Json.arr (r.map (fun kv => Json.arr #[str kv.1, optStr kv.2.doc,
+      Json.bool kv.2.serverDefault.isSome])).toArray)]),
+  -- a whole interface: the three emissions, their parses, the table→class conversion, the expected normal form
+  ("c05.case", fun j => do
+    let name ← getChars j "name"
+    let ps ← paramsOf (← j.getObjVal? "params")
+    let force ← getBool j "force"
+    let hasDoc ← getBool j "has_doc"
+    let ir : IR := { name := name, params := ps }
+    let tbl := emitTable force ir
+    let cls := emitClass force hasDoc ir
+    let hyb := emitHybrid force hasDoc ir
+    let t2c := tbl >>= tableToClass
+    return Json.mkObj [
+      ("table", exceptJ (fun a => Json.mkObj [("target", str a.1), ("call", tableJ a.2)]) tbl),
+      ("class", exceptJ classJ cls),
+      ("hybrid", exceptJ classJ hyb),
+      ("parsed_table", exceptJ parsedIRJ (tbl >>= parseTable)),
+      ("parsed_class", exceptJ parsedIRJ (cls >>= parseClass)),
+      ("parsed_hybrid", exceptJ parsedIRJ (hyb >>= parseClass)),
+      ("table_to_class", exceptJ classJ t2c),
+      ("parsed_table_to_class", exceptJ parsedIRJ (t2c >>= parseClass)),
+      ("normal_form", Json.arr ((ensurePK force ps).map (fun kv => Json.arr #[str kv.1,
+          optStr (normDoc kv.1 kv.2.doc kv.2.default.isSome)])).toArray)]),
+  -- a class body by statement kinds → parse.sqlalchemy
+  ("c05.parse_class", fun j => do
+    let name ← getChars j "name"
+    let body ← (← getArr j "body").toList.mapM stmtOf
+    return exceptJ parsedIRJ (parseClass { name := name, body := body })),
+  -- the tables the model uses (must equal the imported ones)
+  ("c05.tables", fun _ =>
+    return Json.mkObj [("column_type2typ", pairsJ Gen.SqlTables.columnType2Typ), ("typ2column_type", pairsJ Gen.SqlTables.typ2ColumnType),
+                       ("imports", strs Gen.SqlTables.topLevelImports)])
+]
 end Driver.C05
